@@ -158,7 +158,7 @@ class Leg:
                 sm = re.search(r"SUMMARY: (\w+): (.*)", err)
                 cls = "sanitizer"
                 if sm:
-                    cls = ("asan" if sm.group(1) == "AddressSanitizer" else "tsan" if sm.group(1) == "ThreadSanitizer" else sm.group(1)) + ":" + sm.group(2)
+                    cls = sanitizer_class("asan" if sm.group(1) == "AddressSanitizer" else "tsan" if sm.group(1) == "ThreadSanitizer" else sm.group(1), sm.group(2))
                 owned = self.owns_sanitizer(cls)
                 with self.lock:
                     if owned:
@@ -166,7 +166,7 @@ class Leg:
                             self.found = (cur, cls, err[-3000:])
                         self.stop = True
                     else:
-                        self.other[cls.split(" /")[0]] = self.other.get(cls.split(" /")[0], 0) + 1
+                        self.other[cls] = self.other.get(cls, 0) + 1
             else:
                 err = open(errpath).read()
                 with self.lock:
@@ -265,6 +265,17 @@ def write_evidence(prop, tier, seed, legs, wall, violations, extra_notes):
     os.rename(path + ".tmp", path)
 
 
+def sanitizer_class(tool, rest):
+    """same normalisation as drv::sanitizer_class in harness/common.h"""
+    kind = []
+    for tok in rest.split(" "):
+        if "/" in tok or tok.startswith("0x") or tok.startswith("(") or tok == "in":
+            break
+        kind.append(tok)
+    fn = rest.split(" in ", 1)[1].split("(")[0] if " in " in rest else ""
+    return tool + ":" + " ".join(kind) + ((" in " + fn) if fn else "")
+
+
 def replay(prop, path):
     j = json.load(open(path))
     exe = builder.build(j["harness"], j.get("flavour", "A"))
@@ -280,10 +291,7 @@ def replay(prop, path):
     if sm:
         sys.stdout.write(r.stderr[-4000:])
         tool = "asan" if sm.group(1) == "AddressSanitizer" else "tsan" if sm.group(1) == "ThreadSanitizer" else sm.group(1)
-        rest = sm.group(2)
-        kind = rest.split(" /")[0]
-        fn = rest.split(" in ")[1].split("(")[0] if " in " in rest else ""
-        got = tool + ":" + kind + ((" in " + fn) if fn else "")
+        got = sanitizer_class(tool, sm.group(2))
     return want, got
 
 
